@@ -15,7 +15,7 @@ from vlib.wire import Wire
 PROP = 'C15'
 MANIFEST = dict(
     text="Symbolic check of MethodRegistry.add / add_methods / view / merge and the dispatcher front-ends: registration histories are concrete skeletons (prefix chains up to 3 registries deep over {None, '', 'a', 'a.b'} with every "
-         "single registration form at the innermost level; histories of <= 2 (quick) / <= 3 (thorough) operations over two nested registries incl. re-registration under an existing name and explicit merges), then the registry is attached to the sync or async dispatcher "
+         "single registration form at the innermost level; histories of <= 2 (quick) / <= 3 (thorough) operations over two nested registries incl. re-registration under an existing name, registering one and the same function object / view class again under another name or prefix, and explicit merges), then the registry is attached to the sync or async dispatcher "
          "and probed with a request whose method name is an UNBOUNDED symbolic string. Oracle: reference name map computed from the statement (dot-joined non-empty prefixes + view prefix + explicit or own name; later registration replaces earlier; "
          "views expose public callables only; a function registered on the dispatcher after the attachment does not become callable through the source registries); probe reaches method X iff probe equals a reference name bound to X, otherwise -32601.",
     ref='5 C15',
@@ -34,6 +34,7 @@ PREFIXES = (None, '', 'a', 'a.b')
 FORMS = (('add',), ('addname', 'a'), ('addname', 'f'), ('addname', 'a.f'), ('addname', ''), ('addfn',), ('method',),
          ('view', None), ('view', 'v'), ('view', 'a'), ('viewx', None), ('viewx', 'v'))
 HOPS = ('add', 'addname_f', 'addname_g', 'addfn', 'view', 'viewp', 'dup')
+SHOPS = ('sadd', 'saddname', 'saddfn', 'sview', 'sviewp')      # the SAME function / view class registered again
 
 
 def setup():
@@ -59,6 +60,14 @@ def obligations(tier):
             for seq in it.product(steps, repeat=n):
                 if disp == 'async' and n == 3 and seq[0][1] == 2:
                     continue
+                obs.append({'h': 'history', 'disp': disp, 'seq': [list(s) for s in seq]})
+        # histories that register one and the same function object / view class more than once (under different names)
+        ssteps = [(op, r) for op in SHOPS for r in (1, 2)]
+        for seq in it.product(steps + ssteps, repeat=2):
+            if sum(1 for op, _ in seq if op in SHOPS) >= (1 if tier != 'quick' else 2) or (seq[0][0] in SHOPS and seq[1][0] == 'merge'):
+                obs.append({'h': 'history', 'disp': disp, 'seq': [list(s) for s in seq]})
+        if tier != 'quick':
+            for seq in it.product(ssteps, repeat=3):
                 obs.append({'h': 'history', 'disp': disp, 'seq': [list(s) for s in seq]})
     return obs
 
@@ -206,6 +215,8 @@ def h_history(ob):
         P = {1: 'a', 2: 'b.c'}
         regs = {1: MethodRegistry(prefix=P[1]), 2: MethodRegistry(prefix=P[2])}
         refs = {1: {}, 2: {}}           # reference content of each registry: full name (inside that registry) -> tag
+        shared = _fn('shared', 'T-shared', is_async)
+        shared_view = _view('T-sv', is_async)
         for n, (op, r) in enumerate(ob['seq']):
             tag = f'T{n}'
             if op == 'merge':
@@ -235,6 +246,21 @@ def h_history(ob):
             elif op == 'viewp':
                 reg.view(_view(tag, is_async), prefix='f')
                 ref[_join(p, 'f', 'pub')] = tag
+            elif op == 'sadd':
+                reg.add(shared)
+                ref[_join(p, 'shared')] = 'T-shared'
+            elif op == 'saddname':
+                reg.add(shared, name='s')
+                ref[_join(p, 's')] = 'T-shared'
+            elif op == 'saddfn':
+                reg.add_methods(shared)
+                ref[_join(p, 'shared')] = 'T-shared'
+            elif op == 'sview':
+                reg.view(shared_view)
+                ref[_join(p, 'pub')] = 'T-sv'
+            elif op == 'sviewp':
+                reg.view(shared_view, prefix='f')
+                ref[_join(p, 'f', 'pub')] = 'T-sv'
         # final attachment: R2 into R1, R1 into the dispatcher, plus one direct registration on the dispatcher
         regs[1].merge(regs[2])
         for name, t in refs[2].items():
